@@ -58,10 +58,11 @@ SyntaxToken SyntaxNode::lastToken() const
 {
     auto reversed = childNodesAndTokens();
     std::reverse(reversed.begin(), reversed.end());
-    return findValidToken(reversed);
+    return findValidToken(reversed, true);
 }
 
-SyntaxToken SyntaxNode::findValidToken(const std::vector<SyntaxHolder>& syntaxHolders) const
+SyntaxToken SyntaxNode::findValidToken(const std::vector<SyntaxHolder>& syntaxHolders,
+                                       bool fromLast) const
 {
     for (const auto& holder : syntaxHolders) {
         switch (holder.variant()) {
@@ -72,7 +73,8 @@ SyntaxToken SyntaxNode::findValidToken(const std::vector<SyntaxHolder>& syntaxHo
 
             case SyntaxHolder::Variant::Node:
                 if (holder.node()) {
-                    auto tk = holder.node()->firstToken();
+                    auto tk = fromLast ? holder.node()->lastToken()
+                                       : holder.node()->firstToken();
                     if (tk != SyntaxToken::invalid())
                         return tk;
                 }
@@ -80,7 +82,8 @@ SyntaxToken SyntaxNode::findValidToken(const std::vector<SyntaxHolder>& syntaxHo
 
             case SyntaxHolder::Variant::NodeList:
                 if (holder.nodeList()) {
-                    auto tk = holder.nodeList()->firstToken();
+                    auto tk = fromLast ? holder.nodeList()->lastToken()
+                                       : holder.nodeList()->firstToken();
                     if (tk != SyntaxToken::invalid())
                         return tk;
                 }
